@@ -43,7 +43,10 @@ func mutexName(c *ex.Ctx, recvType string, sel string) string {
 type fn struct {
 	name   string
 	events []string
+	file   string
 }
+
+var lockSitesCountDef string
 
 func gen(c *ex.Ctx) {
 	var fns []fn
@@ -52,8 +55,10 @@ func gen(c *ex.Ctx) {
 		name string
 		recv string
 		body *ast.BlockStmt
+		file string
 	}
 	var raws []raw
+	files = lockFiles(c)
 	for _, rel := range files {
 		f := c.Parse(rel)
 		if f == nil {
@@ -72,7 +77,7 @@ func gen(c *ex.Ctx) {
 				}
 				recv = c.Src(t)
 			}
-			raws = append(raws, raw{fd.Name.Name, recv, fd.Body})
+			raws = append(raws, raw{fd.Name.Name, recv, fd.Body, rel})
 		}
 	}
 	isLockCall := func(call *ast.CallExpr) (string, string, bool) {
@@ -83,11 +88,10 @@ func gen(c *ex.Ctx) {
 		if sel.Sel.Name != "Lock" && sel.Sel.Name != "Unlock" {
 			return "", "", false
 		}
-		x := c.Src(sel.X)
-		last := x[strings.LastIndex(x, ".")+1:]
-		if last != "mu" && last != "mut" {
+		if len(call.Args) != 0 {
 			return "", "", false
 		}
+		x := c.Src(sel.X)
 		return sel.Sel.Name, x, true
 	}
 	for _, r := range raws {
@@ -172,7 +176,7 @@ func gen(c *ex.Ctx) {
 			if r.recv != "" {
 				nm = r.recv + "." + nm
 			}
-			fns = append(fns, fn{nm, evs})
+			fns = append(fns, fn{nm, evs, r.file})
 		}
 		// function literals inside (goroutines, callbacks) as pseudo-functions
 		idx := 0
@@ -223,13 +227,39 @@ func gen(c *ex.Ctx) {
 				if r.recv != "" {
 					nm = r.recv + "." + nm
 				}
-				fns = append(fns, fn{fmt.Sprintf("%s.func%d", nm, idx), sub})
+				fns = append(fns, fn{fmt.Sprintf("%s.func%d", nm, idx), sub, r.file})
 			}
 			return true
 		})
 		_ = callsOf
 	}
 	sort.SliceStable(fns, func(i, j int) bool { return fns[i].name < fns[j].name })
+	{
+		type cnt struct{ l, u int }
+		m := map[string]cnt{}
+		for _, f := range fns {
+			k := m[f.file]
+			for _, e := range f.events {
+				switch e[0] {
+				case 'L':
+					k.l++
+				case 'U', 'D':
+					k.u++
+				}
+			}
+			m[f.file] = k
+		}
+		var ks []string
+		for k := range m {
+			ks = append(ks, k)
+		}
+		sort.Strings(ks)
+		var q []string
+		for _, k := range ks {
+			q = append(q, fmt.Sprintf("(%s, %d, %d)", ex.LeanStr(k), m[k].l, m[k].u))
+		}
+		lockSitesCountDef = "/-- Per file: the Lock and Unlock (incl. deferred) events that went into `lockSites`. -/\ndef lockSitesCount : List (String × Nat × Nat) := [" + strings.Join(q, ", ") + "]\n\n"
+	}
 	var sb strings.Builder
 	sb.WriteString("namespace VaxisModel.Gen.Conc\n\n")
 	sb.WriteString("/-- (function, lock events in source order): L lock, U unlock, D deferred unlock, C call of a locking function. -/\n")
@@ -406,6 +436,9 @@ func gen(c *ex.Ctx) {
 		return false
 	})
 	fmt.Fprintf(&sb, "/-- Receivers of `.Next()` / `.Finish()` inside the input goroutine (a field of `vx` is re-read on every iteration). -/\ndef inputLoopParserRefs : List String := [%s]\n\n", strings.Join(recvExprs, ", "))
+	inventory(c, &sb)
+	// lock events that went into lockSites, per file (cross-check of the inventory)
+	sb.WriteString(lockSitesCountDef)
 	sb.WriteString("end VaxisModel.Gen.Conc\n")
 	c.Write("Conc.lean", sb.String())
 }
